@@ -514,7 +514,9 @@ pub fn run_l2(case: &LogCase, dir: &std::path::Path) -> L2State {
 }
 
 pub fn l2_case_report(case: &LogCase, profile: Profile) -> CaseReport {
-    let dir = match tempfile::Builder::new().prefix("rnv-l2-").tempdir_in(std::env::temp_dir()) {
+    let base = std::path::PathBuf::from("/verif/work/l2");
+    std::fs::create_dir_all(&base).ok();
+    let dir = match tempfile::Builder::new().prefix("rnv-l2-").tempdir_in(&base) {
         Ok(d) => d,
         Err(e) => {
             return CaseReport {
